@@ -292,6 +292,10 @@ def arg_scenarios():
     for lang, S in (("en", S_en), ("fr", S_fr), ("en", R_en)):
         for d in ('{"neg":True}', '{"pas":True,"int":"yon"}', '{"neg":True,"zzz":1}', '{"int":"zzz","perf":True}', '{"mod":"poss"}'):
             out.append(("typ-dict", lang, S, "typ", d, ['{"pas":True}', '{"neg":False}', '{"int":"why"}']))
+    for lang, S in (("fr", S_fr), ("en", S_en), ("fr", 'root(V("manger"),subj(N("chat"),det(D("le"))),comp(N("souris"),det(D("un"))))')):
+        # values of the wrong TYPE for a flag (validated by language-specific hooks)
+        for d in ('{"neg":1}', '{"neg":0,"pas":True}', '{"neg":None}', '{"neg":3.5,"int":"yon"}', '{"neg":"jamais"}', '{"mod":1}', '{"int":None,"neg":True}'):
+            out.append(("typ-dict", lang, S, "typ", d, ['{"pas":True}']))
     for lang in ("en", "fr"):
         out.append(("dOpt-dict", lang, 'DT("2024-02-29T13:05:09")', "dOpt", '{"year":False,"second":False}', ['{"month":False}', '{"hour":False}']))
         out.append(("dOpt-dict", lang, "NO(1234.5)", "dOpt", '{"mprecision":1}', ['{"raw":True}']))
@@ -341,6 +345,31 @@ def run_arg_scenario(sc):
         except Exception as ex:  # noqa
             fails.append(("exception:" + type(ex).__name__, {}))
     return fails
+
+
+def run_output_scenarios(rng, entries):
+    """objects RETURNED to the caller (toJSON) must not be aliased to the expression: later operations on the expression
+    (options, realization) must not change a JSON taken earlier"""
+    fails = []
+    n = 0
+    for en in entries:
+        with Quiet():
+            try:
+                e = build(en["src"], en["lang"])
+                j = e.toJSON()
+                j0 = copy.deepcopy(j)
+                for _ in range(rng.randint(0, 3)):
+                    apply_op(e, candidate_ops(rng, e, en["lang"]))
+                j1 = copy.deepcopy(j)
+                e.realize()
+                n += 1
+                if j1 != j0:
+                    fails.append(("json-output-changed-by-later-option", {"src": en["src"], "lang": en["lang"]}))
+                elif j != j0:
+                    fails.append(("json-output-changed-by-realization", {"src": en["src"], "lang": en["lang"]}))
+            except Exception:  # noqa
+                continue
+    return n, fails
 
 
 def run_list_scenarios():
@@ -444,6 +473,12 @@ def run(ctx, deep=False):
         ctx.count({"arg-scenario": sc[0], "lang": sc[1], "src": sc[2], "arg": sc[4]}, [f[0] for f in fs], trivial=False)
         for name, detail in fs:
             ctx.fail("%s:%s:%s" % (sc[0], name, sc[3]), {"scenario": sc[0], "lang": sc[1], "src": sc[2], "method": sc[3], "arg": sc[4]}, detail)
+    nout, ofails = run_output_scenarios(rng, ents[:400] + [{"src": 'S(NP(D("the"),N("cat")),VP(V("eat"),NP(D("a"),N("mouse")))).typ({"int":"yon"})', "lang": "en"},
+                                                           {"src": 'S(NP(D("le"),N("chat")),VP(V("manger"),NP(D("un"),N("souris")))).typ({"exc":True,"int":"yon"})', "lang": "fr"}])
+    ctx.notes["json_output_scenarios"] = nout
+    for name, detail in ofails:
+        ctx.count({"output-scenario": name, "src": detail["src"]}, name, trivial=False)
+        ctx.fail(name, detail, {})
     for name, detail in run_list_scenarios():
         ctx.count({"list-scenario": name}, detail, trivial=False)
         ctx.fail(name, {"scenario": name}, detail)
